@@ -228,7 +228,8 @@ def _parse_out(path):
             data = f.read()
     except FileNotFoundError:
         return res, begun, done, fatal
-    for line in data.split(b"\n"):
+    # a worker that died may leave a cut-off last line (stdio flush boundary): only complete lines count
+    for line in data.split(b"\n")[:-1]:
         if not line:
             continue
         if line == b"DONE":
